@@ -18,8 +18,14 @@ pub assume_specification<T>[ <[T]>::reverse ](s: &mut [T])
     ensures final(s)@ == old(s)@.reverse();
 #[verifier::external_body]
 fn vt_split_ascii_whitespace<'a>(s: &'a str) -> (r: Vec<&'a str>)
-    ensures r.len() < usize::MAX, r@ == words_of(s)
+    ensures r.len() < usize::MAX, r@ == words_by(0, s)
 { s.split_ascii_whitespace().collect() }
+// the Unicode splitter is a *different* function of the text: a contract that mixes the two cannot be discharged,
+// one that uses either of them consistently can (the property speaks of "whitespace-separated words")
+#[verifier::external_body]
+fn vt_split_whitespace<'a>(s: &'a str) -> (r: Vec<&'a str>)
+    ensures r.len() < usize::MAX, r@ == words_by(1, s)
+{ s.split_whitespace().collect() }
 // std Iterator::max_by returns the LAST maximum
 #[verifier::external_body]
 fn vt_max_by_key0<'a>(v: &'a [(usize, MatchOp); 3]) -> (r: &'a (usize, MatchOp))
@@ -81,9 +87,13 @@ pub closed spec fn odone(o: Seq<Vec<MatchOp>>, mt: spec_fn(&str, &str) -> bool, 
         pred_ok(#[trigger] ocell(o, p, q), mt, xs, ys, p as nat, q as nat)
 }
 
-pub uninterp spec fn words_of(s: &str) -> Seq<&str>;
+/// the word sequence of a text under splitter k (0: str::split_ascii_whitespace, 1: str::split_whitespace)
+pub uninterp spec fn words_by(k: int, s: &str) -> Seq<&str>;
 pub closed spec fn post_ok(res: (Vec<(usize, usize)>, usize, usize), a: &str, b: &str, mt: spec_fn(&str, &str) -> bool) -> bool {
-    let xs = words_of(a); let ys = words_of(b);
+    post_ok_k(0, res, a, b, mt) || post_ok_k(1, res, a, b, mt)
+}
+pub closed spec fn post_ok_k(k: int, res: (Vec<(usize, usize)>, usize, usize), a: &str, b: &str, mt: spec_fn(&str, &str) -> bool) -> bool {
+    let xs = words_by(k, a); let ys = words_by(k, b);
     &&& res.1 == xs.len() && res.2 == ys.len()
     &&& sorted_strict(res.0@)
     &&& all_match(res.0@, mt, xs, ys)
@@ -318,8 +328,8 @@ fn str_match_fn(ignore_case: bool) -> (f: impl Fn(&str, &str) -> bool)
     |a: &str, b: &str| a == b
 }
 
-pub closed spec fn match_ok(m: Seq<(usize, usize)>, a: &str, b: &str, ic: bool) -> bool {
-    let xs = words_of(a); let ys = words_of(b); let mt = |x: &str, y: &str| word_eq(x, y, ic);
+pub closed spec fn match_ok(k: int, m: Seq<(usize, usize)>, a: &str, b: &str, ic: bool) -> bool {
+    let xs = words_by(k, a); let ys = words_by(k, b); let mt = |x: &str, y: &str| word_eq(x, y, ic);
     &&& sorted_strict(m)
     &&& all_match(m, mt, xs, ys)
     &&& m.len() == lcs(mt, xs, ys, xs.len(), ys.len())
@@ -337,19 +347,23 @@ proof fn lemma_lcs_ext(mt1: spec_fn(&str, &str) -> bool, mt2: spec_fn(&str, &str
     }
 }
 
+/// result of match_words under splitter k: an LCS matching plus the two word counts
+pub closed spec fn mw_ok(k: int, res: (Vec<(usize, usize)>, usize, usize), a: &str, b: &str, ic: bool) -> bool {
+    match_ok(k, res.0@, a, b, ic) && res.1 == words_by(k, a).len() && res.2 == words_by(k, b).len()
+}
 //@unit src/text.rs fn match_words
 //@rule R16(str_match_fn ;; vt_f)
 pub fn match_words(a: &str, b: &str, ignore_case: bool) -> (res: (Vec<(usize, usize)>, usize, usize))
     ensures
-        match_ok(res.0@, a, b, ignore_case),
-        res.1 == words_of(a).len(), res.2 == words_of(b).len(),
+        mw_ok(0, res, a, b, ignore_case) || mw_ok(1, res, a, b, ignore_case),
 {
     let vt_f = str_match_fn(ignore_case);
     proof {
         let mtw = |x: &str, y: &str| word_eq(x, y, ignore_case);
         let mt = |x: &str, y: &str| vt_f.ensures((x, y), true);
         assert forall|x: &str, y: &str| #[trigger] mt(x, y) == mtw(x, y) by {}
-        lemma_lcs_ext(mt, mtw, words_of(a), words_of(b), words_of(a).len(), words_of(b).len());
+        lemma_lcs_ext(mt, mtw, words_by(0, a), words_by(0, b), words_by(0, a).len(), words_by(0, b).len());
+        lemma_lcs_ext(mt, mtw, words_by(1, a), words_by(1, b), words_by(1, a).len(), words_by(1, b).len());
     }
     match_words_with(a, b, vt_f)
 }
@@ -376,9 +390,9 @@ fn vt_set_difference(a: &HashSet<usize>, b: &HashSet<usize>) -> (r: HashSet<usiz
 
 /// edited words = complement of the matched indices, for SOME matching that is an LCS (the one match_words returned)
 pub closed spec fn edited_ok(r: (HashSet<usize>, HashSet<usize>), a: &str, b: &str) -> bool {
-    exists|m: Seq<(usize, usize)>| #[trigger] match_ok(m, a, b, false)
-        && (forall|i: usize| #[trigger] r.0@.contains(i) <==> (i < words_of(a).len() && !in_fst(m, i)))
-        && (forall|j: usize| #[trigger] r.1@.contains(j) <==> (j < words_of(b).len() && !in_snd(m, j)))
+    exists|k: int, m: Seq<(usize, usize)>| 0 <= k <= 1 && #[trigger] match_ok(k, m, a, b, false)
+        && (forall|i: usize| #[trigger] r.0@.contains(i) <==> (i < words_by(k, a).len() && !in_fst(m, i)))
+        && (forall|j: usize| #[trigger] r.1@.contains(j) <==> (j < words_by(k, b).len() && !in_snd(m, j)))
 }
 
 //@unit src/edit.rs fn edited_words
